@@ -717,6 +717,40 @@ pub(crate) mod verif_hooks {
     pub(crate) fn table_get(t: &TableTablets, i: usize) -> (i64, i64, u32) {
         tablet_view(&t.tablet_list[i])
     }
+
+    /// A tablet whose replicas are all resolved (`failed == None`).
+    pub(crate) fn make_resolved_tablet(first: i64, last: i64) -> Tablet {
+        Tablet {
+            first_token: Token::new(first),
+            last_token: Token::new(last),
+            replicas: TabletReplicas::default(),
+            failed: None,
+        }
+    }
+
+    pub(crate) fn table_flag(t: &TableTablets) -> bool {
+        t.has_unknown_replicas
+    }
+
+    pub(crate) fn info_new() -> super::TabletsInfo {
+        super::TabletsInfo::new()
+    }
+
+    pub(crate) fn info_add(info: &mut super::TabletsInfo, ks: &str, table: &str, tablet: Tablet) {
+        info.add_tablet(TableSpec::owned(ks.to_owned(), table.to_owned()), tablet)
+    }
+
+    pub(crate) fn info_flag(info: &super::TabletsInfo) -> bool {
+        info.has_unknown_replicas
+    }
+
+    pub(crate) fn info_table<'a>(
+        info: &'a super::TabletsInfo,
+        ks: &str,
+        table: &str,
+    ) -> Option<&'a TableTablets> {
+        info.tablets_for_table(&TableSpec::borrowed(ks, table))
+    }
 }
 
 #[cfg(test)]
